@@ -292,7 +292,7 @@ def _check(run, rng, proof_ok, t):
                         "(relative, absolute, through another link, chains) and inside (incl. from outside back in), dangling links and loops; "
                         "18 outside / 12 inside / 10 unresolvable argument spellings x {import, include, include_hex} x nesting depth 0-2 x 11 ways of naming "
                         "the top-level file (absolute, through links, relative to several current directories); roots that are subdirectories, top-level "
-                        "files that are links, 39/40/41-link chains, Ingest::ingest on virtual paths; the same argument string used from two directories (inside from one, outside from the other, both orders); distinct = distinct trees")
+                        "files that are links, 39/40/41-link chains, Ingest::ingest on virtual paths; the same argument string used from two directories (inside from one, outside from the other, both orders); links and absolute paths to a device node (/dev/null, implementation only); distinct = distinct trees")
     # ---- property oracle
     index = {os.path.realpath(k_): v for k_, v in t.files.items()}
     found = 0
@@ -329,6 +329,31 @@ def _check(run, rng, proof_ok, t):
                             links[os.path.relpath(q, c["top"])] = os.readlink(q)
                 run.violation(dict(property="C18", main=c["main"], cwd=os.path.relpath(c["cwd"], c["top"]), top=c["top"], files=files, links=links,
                                    impl=impl[:600], problems=problems, request=c["req"][:200]))
+    # ---- targets outside the root that are not regular files (a device node; the tree model has only directories,
+    # files and links, so these run on the implementation only): whatever the target IS, it lies outside the root
+    if os.path.exists("/dev/null"):
+        top, proj, canary, inner = fresh()
+        os.symlink("/dev/null", os.path.join(proj, "null.etk"))
+        os.symlink("/dev/null", os.path.join(proj, "sub", "null.hex"))
+        nr = []
+        for kind_, arg in (("import", "null.etk"), ("include", "null.etk"), ("include_hex", "sub/null.hex"), ("import", "/dev/null"), ("include", "/dev/null"),
+                           ("include_hex", "/dev/null"), ("import", "sub/../null.etk")):
+            name = f"nr{len(nr)}.etk"
+            t.write_src(os.path.join(proj, name), [("op", "push1", ("num", 1)), (kind_, arg), ("op", "push1", ("num", 2))])
+            nr.append((os.path.join(proj, name), kind_, arg))
+        t.write_src(os.path.join(proj, "sub", "nrmid.etk"), [("import", "/dev/null")])
+        t.write_src(os.path.join(proj, "nrnest.etk"), [("include", "sub/nrmid.etk")])
+        nr.append((os.path.join(proj, "nrnest.etk"), "include->import", "/dev/null"))
+        nr_ans, _, _ = common.run_harness(["asm_file " + m_.encode().hex() for m_, _, _ in nr], timeout=120)
+        for (m_, kind_, arg), a in zip(nr, nr_ans):
+            run.corr["cases"] += 1
+            run.corr["distribution"]["non-regular-outside"] = run.corr["distribution"].get("non-regular-outside", 0) + 1
+            if classify(a or "") != "traversal":
+                found += 1
+                if found <= 3:
+                    run.violation(dict(property="C18", main=m_, top=top, directive=f'%{kind_}("{arg}")', links={"proj/null.etk": "/dev/null", "proj/sub/null.hex": "/dev/null"},
+                                       impl=(a or "no answer")[:300], problems=["a device node outside the root was not refused with DirectoryTraversal"],
+                                       request="asm_file " + m_.encode().hex()))
     run.notes.append("python reference verdicts: " + ", ".join(f"{k_}={v}" for k_, v in sorted(stats.items(), key=str)))
     if (not proof_ok or dis) and not found:
         if dis:
